@@ -7,7 +7,7 @@ MODEL_QUALID = "Model.RateLimiter.run_script"
 NCFG = 5
 PER_EV = 4
 FORMAT = ("script [window type 0=fixed 1=sliding log 2=sliding counter; limit; period_ms; timeout_ms; n; (op a b)*] "
-          "op 1=Poll a 2=Drop a 3=Advance a(ms) 4=Complete a b(0 ok,1 err,2 panic). "
+          "op 1=Poll a 2=Drop a 3=Advance a(ms) 4=Complete a b(0 ok,1 err,2 panic) 5=Call a (create the call future without polling it). "
           "trace per event [r; started; in-flight; wake mask]; r: -1 no poll, 0 pending, 1 Ok, 2 Err(Inner), 3 RateLimited, 5 panicked, 9 nothing to poll")
 TRUSTED = ["sliding counter: the binary64 weight/estimate arithmetic is modelled by exact integer/rational arithmetic; the two agree when refresh_period is a power of two milliseconds (all ratios dyadic, the 0.1 epsilon never lands on a boundary), which the generator guarantees for sliding-counter scripts",
            "tokio sleep (fires at the first whole millisecond at/after its deadline), std Mutex around the state (never held across an await), oneshot gate",
@@ -21,7 +21,7 @@ def events(s):
     evs = [tuple(body[i:i + 3]) for i in range(0, len(body) - len(body) % 3, 3)]
     out = []
     for e in evs:
-        if e[0] in (1, 2, 4) and 0 <= e[1] < n:
+        if e[0] in (1, 2, 4, 5) and 0 <= e[1] < n:
             out.append(e)
         elif e[0] == 3:
             out.append(e)
@@ -74,8 +74,10 @@ def random_script(rng, maxn=8, maxlen=50):
     L = rng.randint(3, maxlen)
     for _ in range(L):
         x = rng.random()
-        if x < 0.55:
+        if x < 0.51:
             s += [1, rng.randrange(n), 0]
+        elif x < 0.55:
+            s += [5, rng.randrange(n), 0]      # call() without a poll
         elif x < 0.62:
             s += [2, rng.randrange(n), 0]
         elif x < 0.88:
